@@ -727,7 +727,7 @@ def work_C10(run, rng, budget):
     for _ in range(nsent):
         s, spec = TG.gen_sentence(rng)
         line, real, info = R.op_parse(s)
-        run.corr(line, real, "observable")
+        run.corr(line, real, "observable", meta={"string": s})
         run.case(("C10", s), True)
         run.stats["sentence"] += 1
         g = info.get("graph")
@@ -744,7 +744,7 @@ def work_C10(run, rng, budget):
         run.sample(s)
         for e in TG.edits(s, rng, 25):
             line, real, _ = R.op_parse(e)
-            run.corr(line, real, "observable")
+            run.corr(line, real, "observable", meta={"string": e})
             run.case(("C10", e), True)
             run.stats["edit_accept" if real.startswith("G[") else "edit_" + real[4:]] += 1
             if real.startswith("ERR ") and real != "ERR TucanParserException":
@@ -762,7 +762,7 @@ def work_C10(run, rng, budget):
                 "C/(1-" + "1" * 5000 + ")", "C" + "9" * 4301 + "/" if False else "C2/(1-2)/(1:mass=" + "7" * 4400 + ")"]
     for s in boundary:
         line, real, _ = R.op_parse(s)
-        run.corr(line, real, "observable")
+        run.corr(line, real, "observable", meta={"string": s})
         run.case(("C10b", s), True)
         run.stats["boundary"] += 1
         if real.startswith("ERR ") and real != "ERR TucanParserException":
@@ -774,7 +774,7 @@ def work_C10(run, rng, budget):
             s, spec = TG.gen_sentence(rng, max_elems=3, max_count=4)
             for e in TG.all_single_edits(s, limit=600):
                 line, real, _ = R.op_parse(e)
-                run.corr(line, real, "observable")
+                run.corr(line, real, "observable", meta={"string": e})
                 run.case(("C10", e), True)
                 if real.startswith("ERR ") and real != "ERR TucanParserException":
                     run.fail("rejected-with-foreign-exception", f"{e[:80]!r}: {real}", {"string": e})
@@ -1007,11 +1007,43 @@ def work_C15(run, rng, budget):
 # C16
 # =====================================================================================
 
-def work_C16(run, rng, budget):
-    for m in molecules(run, rng, 120 * budget, max_n=14):
+def shuffled_listing(g: nx.Graph, rng) -> nx.Graph:
+    """the same labelled graph with its nodes and edges inserted in another order (as the results of
+    relabel_nodes / canonicalize_molecule are)"""
+    h = nx.Graph()
+    order = list(g.nodes)
+    rng.shuffle(order)
+    for n in order:
+        h.add_node(n, **g.nodes[n])
+    es = list(g.edges(data=True))
+    rng.shuffle(es)
+    for a, b, d in es:
+        if rng.random() < 0.5:
+            a, b = b, a
+        h.add_edge(a, b, **d)
+    return h
+
+
+def c16_inputs(run, rng, budget):
+    for m in molecules(run, rng, 100 * budget, max_n=14):
         g = mol_graph(m)
+        yield m, (shuffled_listing(g, rng) if rng.random() < 0.5 else g), rng.random()
+    # small and symmetric molecules, several seeds each: the first shuffle is then often the identity or an
+    # automorphism, which is when the retry loop matters
+    for _ in range(25 * budget):
+        fam = rng.choice(["star", "cycle", "path", "complete", "bipartite", "tree", "random_sparse"])
+        m = G.gen_mol(rng, max_n=5, family=fam)
+        sizes(run, m)
+        g0 = mol_graph(m)
+        for k in range(6):
+            g = shuffled_listing(g0, rng) if k % 2 else g0
+            yield m, g, rng.random()
+
+
+def work_C16(run, rng, budget):
+    for m, g, seed in c16_inputs(run, rng, budget):
+        run.stats["listing_order:" + ("label" if list(g.nodes) == sorted(g.nodes) else "other")] += 1
         before = P.show_graph(g)
-        seed = rng.random()
         line, real, info = R.op_permute(g, seed)
         run.corr(line, real, "exact")
         r = info.get("result")
